@@ -341,7 +341,7 @@ theorem inSampleGo_eq (st : Strategy) (sp wl : Nat) (y : List Val) (origin : Int
       · right; intro q' hq'; have := hgt q' hq'; omega
     have ih' := ih (if q < 0 then cut else origin + q) hs' hinv'
     rw [hcut] at ih'
-    simp only [inSampleGo, mapE, oneStepAhead, ih', hcut, bind, Except.bind, pure, Except.pure]
+    simp only [inSampleGo, mapE, oneStepAhead, ih', hcut]
     cases predictLastWindow st sp wl (lastWindow y origin wl (if q < 0 then origin - 1 else origin + q)) [1] with
     | error e => rfl
     | ok v =>
